@@ -2494,3 +2494,17 @@ pub mod psfx {
         }
     }
 }
+
+// ---------------------------------------------------------------- R-IDENTITY
+pub mod identfx {
+    pub fn bad_compare(a: &[u8], b: &[u8]) -> i32 {
+        if a.as_ptr() == b.as_ptr() { return 0; }
+        for (x, y) in a.iter().zip(b.iter()) { if x != y { return *x as i32 - *y as i32; } }
+        a.len() as i32 - b.len() as i32
+    }
+    pub fn ok_compare(a: &[u8], b: &[u8]) -> i32 {
+        if a.as_ptr() == b.as_ptr() && a.len() == b.len() { return 0; }
+        for (x, y) in a.iter().zip(b.iter()) { if x != y { return *x as i32 - *y as i32; } }
+        a.len() as i32 - b.len() as i32
+    }
+}
